@@ -176,6 +176,20 @@ pub fn build<Data: GarnishData>(parse_root: usize, parse_tree: Vec<ParseNode>, d
         Err(CompilerError::new_message(format!("Parse tree refers to a node outside of its {} nodes", node_count)))?;
     }
 
+    // the work stacks below schedule every child they meet, a node reached twice (shared or on a cycle) would be rescheduled forever
+    let mut reached = vec![false; node_count];
+    let mut pending = vec![parse_root];
+    while let Some(index) = pending.pop() {
+        match (reached.get_mut(index), parse_tree.get(index)) {
+            (Some(seen), Some(node)) if !*seen => {
+                *seen = true;
+                pending.extend(node.get_left());
+                pending.extend(node.get_right());
+            }
+            _ => Err(CompilerError::new_message(format!("Parse tree links node {} more than once", index)))?,
+        }
+    }
+
     let mut nodes: Vec<Option<BuildNode<Data>>> = Vec::with_capacity(parse_tree.len());
     for _ in 0..parse_tree.len() {
         nodes.push(None);
